@@ -1,5 +1,6 @@
 #!/bin/bash
-# re-confirms every kept seeded change and re-runs the check of its property against it (3 in parallel); prints one line per seed
+# re-confirms every kept seeded change and re-runs the check of its property against it (REJOBS in parallel); prints one line per seed.
+# RESKIP=1: do not repeat the repository's test-suite (it was run when the seed was first confirmed; meta.json keeps that record)
 cd "$(dirname "$0")/.."
 ls -d seeded/*/ | sed 's#/$##' | while read d; do n=$(basename $d); echo "${n%%-*} $d $n"; done | \
-  xargs -P ${REJOBS:-3} -L 1 bash -c 'python3 tools/seedcheck.py $0 $1 --keep $2 > /tmp/reseed_$2.json 2>/dev/null; echo "$2 rc=$? $(python3 -c "import json;d=json.load(open(\"/tmp/reseed_$2.json\"));print(d.get(\"confirmed\"),d.get(\"detected\"))" 2>/dev/null)"'
+  xargs -P ${REJOBS:-3} -L 1 bash -c 'python3 tools/seedcheck.py $0 $1 --keep $2 ${RESKIP:+--skip-tests} > /tmp/reseed_$2.json 2>/dev/null; echo "$2 rc=$? $(python3 -c "import json;d=json.load(open(\"/tmp/reseed_$2.json\"));print(d.get(\"confirmed\"),d.get(\"detected\"))" 2>/dev/null)"'
